@@ -118,3 +118,41 @@ def search(rep: C.Report, tier: str, broken):
                                        f"{ph} T={T} spline'={d1} diff={num}")
                 rep.obligation(f"oracle contract CubicSpline.derivative {ph} {sorted(params.items())} {TnFrac}",
                                "oracle-monitor", True, "7 points")
+    # ---- the same Thermodynamics object after its phases were traced AGAIN (model parameters updated in place, as in a parameter scan that
+    # re-uses the objects; derivatives had already been taken by setExtrapolate): p, dp, ddp must all belong to the NEW tables
+    for dE in ((1.05,) if tier == "quick" else (1.05, 0.97, 1.10)):
+        th, model, info = models.make_thermo("toy1", {}, TnFrac=0.6, key=("C10-retrace", tier, dE))
+        ref = info["ref"]
+        Tn_, dT_ = th.Tnucl, info["dT"]
+        model.E = model.E * dE                       # closed forms (VSym, VBroken) follow the attribute
+        try:
+            for fe in (th.freeEnergyHigh, th.freeEnergyLow):
+                fe.tracePhase(fe.minPossibleTemperature[0] - 2 * dT_, fe.maxPossibleTemperature[0] + 2 * dT_, dT_, rTol=1e-6)
+            th.setExtrapolate()
+        except Exception as ex:  # noqa: BLE001
+            rep.count("re-trace raised " + type(ex).__name__)
+            continue
+        for ph in ("HighT", "LowT"):
+            p, dp, ddp = getattr(th, "p" + ph), getattr(th, "dp" + ph), getattr(th, "ddp" + ph)
+            TMin, TMax = getattr(th, "TMin" + ph), getattr(th, "TMax" + ph)
+            exact = (lambda T: -ref.VSym(T)) if ph == "HighT" else (lambda T: -ref.VBroken(T))
+            for T in np.linspace(TMin + 0.05 * (TMax - TMin), TMax - 0.05 * (TMax - TMin), 9):
+                h = 1e-4 * T
+                P, DP, DDP = float(p(T)), float(dp(T)), float(ddp(T))
+                num = (float(p(T + h)) - float(p(T - h))) / (2 * h)
+                num2 = (float(dp(T + h)) - float(dp(T - h))) / (2 * h)
+                ex = float(exact(T))
+                rep.case(key=("retrace", dE, ph, round(float(T), 4)))
+                rep.count("re-traced object")
+                bad = []
+                if abs(num - DP) > 2e-5 * abs(DP):
+                    bad.append(("dp = d/dT p", DP, num))
+                if abs(num2 - DDP) > 2e-4 * abs(DDP):
+                    bad.append(("ddp = d/dT dp", DDP, num2))
+                if abs(P - ex) > 1e-5 * abs(ex):
+                    bad.append(("p = -Veff(min)", P, ex))
+                for b in bad:
+                    rep.violation(f"after the phases were traced again on the same object, EOS identity {b[0]} fails in {ph} at T={T}",
+                                  {"model": "toy1", "E_multiplied_by": dE, "phase": ph, "T": float(T), "identity": b[0], "values": b[1:],
+                                   "how": "models.make_thermo(toy1); model.E *= dE; freeEnergy*.tracePhase(same range) again; setExtrapolate()"},
+                                  finding_key=f"C10:retrace:{b[0]}")
